@@ -1075,7 +1075,7 @@ fn infinite_constants(cx: &mut Ctx, up: &Src) {
 /// C11.D1: the "first element" flags of the list renderers are read and cleared only together.
 fn delimiter_flags(cx: &mut Ctx, up: &Src) {
     let rule = "C11.D1";
-    cx.rule(rule, "separator discipline of the list renderers (arguments, call arguments, collections, comprehensions, comparisons): a `let mut FLAG = true` that is handed to p_delim(&mut FLAG, sep) is used in no other way — p_delim prints the separator unless the flag is set and clears it in the same step (`p_if(!mem::take(flag), sep)`), so whatever is printed, the next separator is not lost; a separate read of the flag (`p_if(!FLAG, ..)`, `if !FLAG`) is accepted only when each such read is matched by a `FLAG = false;`");
+    cx.rule(rule, "separator discipline of the list renderers (arguments, call arguments, collections, comprehensions, comparisons): a `let mut FLAG = true` that is handed to p_delim(&mut FLAG, sep) — directly or through a helper that receives `&mut FLAG` — is used in no other way — p_delim prints the separator unless the flag is set and clears it in the same step (`p_if(!mem::take(flag), sep)`), so whatever is printed, the next separator is not lost; a separate read of the flag (`p_if(!FLAG, ..)`, `if !FLAG`) is accepted only when each such read is matched by a `FLAG = false;`");
     cx.floor(rule, 5);
     match up.method("Unparser", "p_delim") {
         Some(m) if ["{self.p_if(!std::mem::take(first),s)}", "{self.p_if(!mem::take(first),s)}", "{self.p_if(!core::mem::take(first),s)}"].contains(&sm::tsc(&m.block).as_str()) || sm::tsc(&m.block).replace("std::mem::replace(first,false)", "mem::take(first)").replace("std::mem::take", "mem::take") == "{self.p_if(!mem::take(first),s)}" => cx.ok(rule, "p_delim prints the separator unless *first, and clears *first (mem::take)"),
@@ -1097,18 +1097,26 @@ fn delimiter_flags(cx: &mut Ctx, up: &Src) {
             for w in toks.windows(5) {
                 if w[0] == "p_delim" && w[1] == "(" && w[2] == "&" && w[3] == "mut" {
                     flags.insert(w[4].clone());
-                    *n_delim.entry(w[4].clone()).or_default() += 1;
+                }
+                // a flag received as `X: &mut bool` and handed to p_delim(X, ..)
+                if w[0] == "p_delim" && w[1] == "(" && w[3] == "," && w[2].chars().all(|c| c.is_alphanumeric() || c == '_') && w[2] != "self" {
+                    flags.insert(w[2].clone());
                 }
             }
             for x in flags {
                 let total = toks.iter().filter(|t| **t == x).count();
                 let n_let = toks.windows(4).filter(|w| w[0] == "let" && w[1] == "mut" && w[2] == x && w[3] == "=").count();
+                // handing the flag on (`&mut X` as an argument) or using a received one (`p_delim(X, ..)`, `X: &mut bool`)
+                let n_hand = toks.windows(3).filter(|w| w[0] == "&" && w[1] == "mut" && w[2] == x).count();
+                let n_direct = toks.windows(3).filter(|w| w[0] == "p_delim" && w[1] == "(" && w[2] == x).count();
+                let n_param = if m.sig.inputs.iter().any(|a| matches!(a, syn::FnArg::Typed(t) if sm::tsc(&t.pat) == x && sm::tsc(&t.ty) == "&mutbool")) { 0 } else { 0 };
+                *n_delim.entry(x.clone()).or_default() = n_hand + n_direct + n_param;
                 let n_reads = toks.windows(2).filter(|w| w[0] == "!" && w[1] == x).count();
                 let n_clears = toks.windows(4).filter(|w| w[0] == x && w[1] == "=" && w[2] == "false" && w[3] == ";").count();
                 let n_pairs = if n_reads == n_clears { n_reads } else { 0 };
                 let nd = n_delim.get(&x).copied().unwrap_or(0);
                 if total == n_let + nd + 2 * n_pairs {
-                    cx.ok(rule, &format!("{}: flag `{}` — {} p_delim use(s), no other access", fname, x, nd));
+                    cx.ok(rule, &format!("{}: flag `{}` — {} p_delim / hand-on use(s), no other access", fname, x, nd));
                 } else {
                     cx.fail(rule, &format!("{}/{}/{}", rule, fname, x), &up.loc(m), &format!("{}: the separator flag `{}` is accessed {} time(s) outside p_delim(&mut {}, ..) (and outside a read directly followed by `{} = false;`): something is printed without clearing the flag, so the following separator is lost (e.g. `lambda *, k: k` rendered as `lambda*k: k`)", fname, x, total - n_let - nd - 2 * n_pairs, x, x));
                 }
